@@ -35,7 +35,7 @@ func c08Cases(tier string) []c08Grid {
 func init() {
 	register(&Prop{
 		ID: "C08", Level: "exploration",
-		Rule: "grid cases: for every (flushes f in 0..6) x (pending: nothing / unflushed mutations / unflushed mutations plus a Collection.Write() that leaves unreferenced bytes after the last root record) x (re-open before reverting: no/yes) x (consecutive reverts r in 1..f+2, i.e. always past the first flush) x content variations, the store is built with random mutations between the flushes, reverted r times, and after every revert compared with the model's stack of flushed states (contents of every collection, names, file length = end of that flush's root record, a second store opened on a copy of the file, the independent decoder); then mutated, flushed and re-opened again. Further cases are random histories (several collections, collection add/remove between flushes, memory-only stores which must refuse). Termination is decided on logical steps: the rootscan.iter hook counts scan iterations and more than 2*filesize+64 is impossible for a terminating scan. Non-trivial = at least one revert executed on a file with >= 1 flush, or a revert past the first flush; distinct = distinct op-trace hash.",
+		Rule: "grid cases: for every (flushes f in 0..6) x (pending: nothing / unflushed mutations / unflushed mutations plus a Collection.Write() that leaves unreferenced bytes after the last root record) x (re-open before reverting: no/yes) x (consecutive reverts r in 1..f+2, i.e. always past the first flush) x content variations (half of them with reverse / length-first comparators supplied through KeyCompareForCollection), the store is built with random mutations between the flushes, reverted r times, and after every revert compared with the model's stack of flushed states (contents of every collection, names, file length = end of that flush's root record, a second store opened on a copy of the file, the independent decoder); then mutated, flushed and re-opened again. Further cases are random histories (several collections, collection add/remove between flushes, memory-only stores which must refuse). Termination is decided on logical steps: the rootscan.iter hook counts scan iterations and more than 2*filesize+64 is impossible for a terminating scan. Non-trivial = at least one revert executed on a file with >= 1 flush, or a revert past the first flush; distinct = distinct op-trace hash.",
 		Assumptions: []string{
 			"snapshots taken before a FlushRevert of the original are closed first (README)",
 			"failed flushes between the last Flush and FlushRevert are exercised under C07 (fault injection), Collection.Write() here",
@@ -44,7 +44,7 @@ func init() {
 		NumCases:   func(tier string) int { return len(c08Cases(tier)) + pick(tier, 300, 20000) },
 		Run:        runC08,
 		Floor: func(tier string, st map[string]int64) string {
-			for _, k := range []string{"op.FlushRevert", "c08.revert-past-first", "c08.revert-to-previous", "c08.flush-after-revert", "c08.memonly-refused", "rootscan.iters", "c08.collwrite-before-revert"} {
+			for _, k := range []string{"op.FlushRevert", "c08.revert-past-first", "c08.revert-to-previous", "c08.flush-after-revert", "c08.memonly-refused", "rootscan.iters", "c08.collwrite-before-revert", "c08.custom-comparator-cases"} {
 				if st[k] == 0 {
 					return "no " + k + " observed"
 				}
@@ -69,6 +69,10 @@ func runC08(ctx *Ctx, idx int) Result {
 		hc.KeyClass = gen.KeysShort
 	}
 	hc.Mix = Mix{Set: 10, Delete: 3, GetItem: 2}
+	if g.variation%2 == 1 {
+		hc.CustomCmp, hc.KeyClass = true, gen.KeysDigits // comparators come back through KeyCompareForCollection after a revert
+		ctx.Stats["c08.custom-comparator-cases"]++
+	}
 	h := NewHist(r, cfg, hc, fmt.Sprintf("c08-%d", idx))
 	e := h.E
 	mutate := func(n int) {
@@ -138,7 +142,11 @@ var mixC08 = Mix{Set: 30, Delete: 8, GetItem: 4, Visit: 2, Flush: 12, Evict: 3, 
 func runC08Random(ctx *Ctx, idx int, r *gen.R) Result {
 	cfg := driver.Config{MemOnly: r.P(8), ReadbackK: []int{1, 2, 5}[r.Intn(3)], Decode: true, ReopenCheck: r.P(50), Walk: r.P(30)}
 	hc := HistCfg{Steps: r.Range(20, 70), NColls: r.Range(1, 3), NKeys: r.Range(4, 12), KeyClass: gen.KeysShort, ValClass: gen.ValsMixed,
-		Prio: gen.PrioDistinct, Mix: mixC08, MaxSnaps: 2, Exotic: r.P(30)}
+		Prio: gen.PrioDistinct, Mix: mixC08, MaxSnaps: 2, Exotic: r.P(30), CustomCmp: r.P(35)}
+	if hc.CustomCmp {
+		hc.KeyClass = gen.KeysDigits
+		ctx.Stats["c08.custom-comparator-cases"]++
+	}
 	h := NewHist(r, cfg, hc, fmt.Sprintf("c08r-%d", idx))
 	e := h.E
 	if cfg.MemOnly {
